@@ -119,7 +119,7 @@ def run_kernel(kernel: str, repo: str, workdir: str, rlimit=None, timeout=900, c
         t = tag_at(line)
         # a failed precondition at a call site: name caller (primary span) and callee clause (label span)
         site = prim[0]['line_start'] if prim else line
-        failed.append(dict(message=d['message'], obligation=(t['id'] if t else '%s.<unnamed>' % fn), props=(t['props'] if t else []),
+        failed.append(dict(message=d['message'], obligation=(t['id'] if t else '%s.%s' % (fn_at(site), re.sub(r'[^a-z0-9]+', '_', d['message'].lower()).strip('_')[:60])), props=(t['props'] if t else []),
                            function=fn_at(site), line=site, text=src_lines[site - 1].strip()[:200] if site - 1 < len(src_lines) else '',
                            rendered=d.get('rendered', '')[:1500]))
     res['failed'] = failed
